@@ -41,8 +41,10 @@ def earth(ctx, which="user"):
             ctx.setfield(ell, "_a", a)
             ctx.setfield(ell, "_f", f)
             ctx.setfield(ell, "_omega", om)
-    e = ctx.obj("Earth")
-    ctx.setfield(e, "_ellip", ell, as_float=False)
+    # an Earth object built by the constructor (default ellipsoid) and then re-aimed with the public set(): every method
+    # must answer for the ellipsoid that was set last
+    e = ctx.new(EARTH)
+    ctx.method(e, "set", ell)
     return e, a, f, om
 
 
@@ -136,7 +138,7 @@ def h_distance(ctx):
 
 @P.harness("parallax_ecliptical/latitude-range", contracts=lambda: {ANGLE + ".reduce_deg": contract_reduce_deg,
                                                                    ANGLE + ".dms2deg": contract_dms2deg},
-           axioms=("pi", "inverse-range", "trig-range"), functions=[EARTH + ".parallax_ecliptical"], crosscheck=0, timeout=60,
+           axioms=("pi", "inverse-range", "trig-range", "sqrt"), functions=[EARTH + ".parallax_ecliptical"], crosscheck=0, timeout=60,
            branch_timeout_ms=300)
 def h_par_ecl(ctx):
     def ang(name, lo, hi):
@@ -178,13 +180,13 @@ def _par_cuts():
 
 @P.harness("parallax_ecliptical/direction", contracts=lambda: {ANGLE + ".reduce_deg": contract_reduce_deg,
                                                               ANGLE + ".dms2deg": contract_dms2deg},
-           cuts=_par_cuts, axioms=("pi", "inverse-range", "trig-range"), functions=[EARTH + ".parallax_ecliptical"], crosscheck=0,
+           cuts=_par_cuts, axioms=("pi", "inverse-range", "trig-range", "sqrt"), functions=[EARTH + ".parallax_ecliptical"], crosscheck=0,
            timeout=60, branch_timeout_ms=300)
 def h_par_dir(ctx):
     """the returned direction is the geocentric unit vector minus sin(parallax) times the observer's geocentric vector
     (rho cos phi' cos theta, rho cos phi' sin theta, rho sin phi') turned into the ecliptic frame (Meeus 40.6/40.7):
-    longitude == atan2(Y, N) mod 360, latitude == atan2(cos(longitude') Z, N) up to whole half turns (same tangent; with
-    |latitude| <= 90 from the range harness that is atan(cos(longitude') Z / N)), for the (N, Y, Z) of that vector"""
+    longitude == atan2(Y, N) mod 360, latitude == atan2(Z, sqrt(N^2 + Y^2)), semidiameter == asin(sin s / |(N, Y, Z)|), for the
+    (N, Y, Z) of that vector (the vector form: Meeus' cos(longitude') Z / N is 0/0 when the topocentric longitude is +-90)"""
     from pyvc.api import atan2_
     from specs.rotations import unitvec, rot_x, matvec
     if ctx.native:
@@ -214,18 +216,24 @@ def h_par_dir(ctx):
     obs_ecl = matvec(rot_x(radians_(oblv)), obs_equ)
     u = unitvec(lonv, latv)
     N, Y, Z = (u[i] - sp * obs_ecl[i] for i in range(3))
-    (A1, N1), (A2, N2) = ctx.uf_terms("atan2")[:2]
+    calls = ctx.uf_terms("atan2")
+    if len(calls) < 2:
+        ctx.vc("longitude and latitude are the arctangents of the topocentric vector", False)
+        return
+    (A1, N1), (A2, S2) = calls[:2]
     ctx.identity("denominator N == x of (unit vector - sin(pi) observer)", N1, N)
     ctx.identity("longitude numerator == y of that vector", A1, Y)
-    ctx.identity("same denominator in the latitude", N2, N1)
+    ctx.identity("latitude numerator == z of that vector", A2, Z)
+    ctx.vc("latitude denominator == sqrt(x^2 + y^2) of that vector (no 0/0 when longitude' is +-90 degrees)", S2 == sqrt_(N1 * N1 + A1 * A1))
     tlon, tlat = ctx.field(out[0], "_deg"), ctx.field(out[1], "_deg")
-    ctx.identity("latitude numerator == cos(longitude') z of that vector", A2, cos_(radians_(tlon)) * Z)
     T1 = atan2_(A1, N1) * 180 / pi_()
-    T2 = atan2_(A2, N2) * 180 / pi_()
     k1 = (tlon - T1) / 360
     ctx.vc("longitude' == atan2(Y, N) (mod 360)", or_(k1 == 0, k1 == 1))
-    k2 = (tlat - T2) / 180
-    ctx.vc("latitude' == atan2(cos(longitude') Z, N) up to whole half turns (same tangent)", or_(k2 == 0, k2 == 1, k2 == -1))
+    ctx.vc("latitude' == atan2(Z, sqrt(N^2 + Y^2)) in degrees, in [-90, 90]",
+           and_(tlat * pi_() == atan2_(A2, S2) * 180, tlat >= -90, tlat <= 90))
+    (sarg,), = ctx.uf_terms("asin")[-1:]
+    semiv = ctx.field(semi, "_deg")
+    ctx.vc("semidiameter' == asin(sin(semidiameter) / |vector|)", sarg * sqrt_(N1 * N1 + A1 * A1 + A2 * A2) == sin_(radians_(semiv)))
 
 
 def _pc_cuts():
@@ -240,13 +248,13 @@ def _pc_cuts():
 
 @P.harness("parallax_correction/direction", contracts=lambda: {ANGLE + ".reduce_deg": contract_reduce_deg,
                                                                ANGLE + ".dms2deg": contract_dms2deg},
-           cuts=_pc_cuts, axioms=("pi", "inverse-range", "trig-range"), functions=[EARTH + ".parallax_correction"], crosscheck=0,
+           cuts=_pc_cuts, axioms=("pi", "inverse-range", "trig-range", "sqrt"), functions=[EARTH + ".parallax_correction"], crosscheck=0,
            timeout=60, branch_timeout_ms=300)
 def h_pc_dir(ctx):
     """in the frame whose x axis lies in the body's geocentric meridian the topocentric vector is T = (cos dec - rho cos phi' sin pi
     cos H, -rho cos phi' sin pi sin H, sin dec - rho sin phi' sin pi) (Meeus 40.2/40.3): the right ascension changes by
-    atan2(T_y, T_x) and the returned declination is atan2(T_z cos(d_alpha), T_x) up to whole half turns, inside [-90, 90] --
-    i.e. atan(T_z cos(d_alpha) / T_x), the declination of T also when the body is seen beyond the pole (T_x < 0)"""
+    atan2(T_y, T_x) and the returned declination is atan2(T_z, sqrt(T_x^2 + T_y^2)), the declination of T itself (the vector form:
+    Meeus' T_z cos(d_alpha) / T_x is 0/0 when d_alpha is +-90 degrees)"""
     from pyvc.api import atan2_
     if ctx.native:
         return
@@ -270,21 +278,22 @@ def h_pc_dir(ctx):
     sp, rs, rc = pc["sin_pi"], pc["rho_sinphi"], pc["rho_cosphi"]
     d, H = radians_(decv), radians_(hav)
     Tx, Ty, Tz = cos_(d) - rc * sp * cos_(H), -rc * sp * sin_(H), sin_(d) - rs * sp
-    (A1, N1), (A2, N2) = ctx.uf_terms("atan2")[:2]
+    calls = ctx.uf_terms("atan2")
+    if len(calls) < 2:
+        ctx.vc("right ascension and declination are the arctangents of the topocentric vector", False)
+        return
+    (A1, N1), (A2, S2) = calls[:2]
     ctx.identity("right-ascension arctangent: numerator == T_y", A1, Ty)
     ctx.identity("right-ascension arctangent: denominator == T_x", N1, Tx)
-    ctx.identity("declination arctangent: same denominator", N2, N1)
     pi = pi_()
     da = atan2_(A1, N1) * 180 / pi                       # degrees
     tra, tdec = ctx.field(out[0], "_deg"), ctx.field(out[1], "_deg")
     k1 = (tra - rav - da) / 360
     ctx.vc("right ascension' == right ascension + atan2(T_y, T_x) (mod 360)", k1 == floor_(k1))
-    # the code takes the cosine of the reduced Angle made of that arctangent: the same angle up to whole turns
-    ctx.identity("declination arctangent: numerator == T_z cos(d_alpha)", A2, Tz * cos_(radians_(da)))
-    T2 = atan2_(A2, N2) * 180 / pi
-    k2 = (tdec - T2) / 180
-    ctx.vc("declination' == atan2(T_z cos(d_alpha), T_x) up to whole half turns (same tangent)", or_(k2 == 0, k2 == 1, k2 == -1))
-    ctx.vc("declination' in [-90, 90]", and_(tdec >= -90, tdec <= 90))
+    ctx.identity("declination arctangent: numerator == T_z", A2, Tz)
+    ctx.vc("declination arctangent: denominator == sqrt(T_x^2 + T_y^2) (no 0/0 when d_alpha is +-90 degrees)", S2 == sqrt_(N1 * N1 + A1 * A1))
+    ctx.vc("declination' == atan2(T_z, sqrt(T_x^2 + T_y^2)) in degrees, in [-90, 90]",
+           and_(tdec * pi == atan2_(A2, S2) * 180, tdec >= -90, tdec <= 90))
 
 
 # ---- bounded
@@ -385,6 +394,36 @@ def b_earth(rng, tier):
         except Exception as ex:
             ok, det = False, repr(ex)
         yield ((round(dist, 6), round(lon, 4), round(lat, 4), round(olat, 4), round(sid, 4)), ok, det)
+    # exact special values: bodies at a pole of the coordinates, observers at a pole of the Earth, longitudes / sidereal times /
+    # hour angles that are exact quarter turns (where cos(longitude') Z / N and its equatorial counterpart are 0/0)
+    for dist in (0.001, 0.0025, 1.0, 1000.0):
+        hp = math.degrees(math.asin(min(1.0, math.sin(math.radians(8.794 / 3600.0)) / dist)))
+        for lon in (0.0, 75.0, 90.0, 270.0):
+            for lat in (90.0, -90.0, 89.9, 60.0, 0.0):
+                for olat in (0.0, 90.0, -90.0, 45.0):
+                    for sid in (0.0, 90.0, 200.0, 270.0):
+                        ok, det = True, None
+                        try:
+                            tl, tb, ts = Earth.parallax_ecliptical(Angle(lon), Angle(lat), Angle(0.25), Angle(olat), Angle(23.44), Angle(sid), dist)
+                            s1 = sep(lon, lat, tl(), tb())
+                            if abs(tb()) > 90 or s1 > 1.003 * hp + 1e-9:
+                                ok, det = False, ("ecliptical", tl(), tb(), s1, hp)
+                            tr, td = Earth.parallax_correction(Angle(lon), Angle(lat), Angle(olat), dist, Angle(sid))
+                            s2 = sep(lon, lat, tr(), td())
+                            if abs(td()) > 90 or s2 > 1.003 * hp + 1e-9:
+                                ok, det = False, ("equatorial", tr(), td(), s2, hp)
+                        except Exception as ex:
+                            ok, det = False, repr(ex)
+                        yield (("special", dist, lon, lat, olat, sid), ok, det)
+
+
+@P.ground_check("representation/Earth.set-rederives-every-field", functions=[EARTH + ".set", EARTH + ".__init__"])
+def g_earth_fields(tier):
+    """an Earth re-aimed with set() keeps nothing of its previous ellipsoid: every field that its methods read is assigned by
+    set() on every path (the constructor itself goes through set())"""
+    from pyvc.frames import representation_obligations
+    for r in representation_obligations("Earth", "Earth", "set"):
+        yield r
 
 
 P.frame_check()
